@@ -1,47 +1,47 @@
 /- GENERATED on every run by harness/props/c08.py from the current source — do not edit.
    kTable: (N_max, deg_G, brackets taken by _apply_poly_transform, brackets taken by _apply_coord_transform),
-   observed by executing the current py_funcs with a counting `_factorial`;
+   observed by executing the current py_funcs with a counting Poisson bracket (inputs whose iterated brackets vanish only by truncation);
    guardTol: the threshold t of `abs(denom) < t` in _solve_homological_equation located by bisection on the
    compiled function (exact value of the float); default tolerances from the live signatures. -/
 namespace HitenModel.Gen.C08
 
 def kTable : List (Nat × Nat × Nat × Nat) := [
-  (3, 3, 2, 3),
-  (4, 3, 2, 4),
-  (4, 4, 3, 4),
-  (5, 3, 2, 5),
-  (5, 4, 3, 5),
-  (5, 5, 4, 5),
-  (6, 3, 2, 6),
-  (6, 4, 3, 6),
-  (6, 5, 4, 6),
-  (6, 6, 5, 6),
-  (7, 3, 2, 7),
-  (7, 4, 3, 7),
-  (7, 5, 4, 7),
-  (7, 6, 5, 7),
-  (7, 7, 6, 7),
-  (8, 3, 2, 8),
-  (8, 4, 3, 8),
-  (8, 5, 4, 8),
-  (8, 6, 5, 8),
-  (8, 7, 6, 8),
-  (8, 8, 7, 8),
-  (9, 3, 2, 9),
-  (9, 4, 3, 9),
-  (9, 5, 4, 9),
-  (9, 6, 5, 9),
-  (9, 7, 6, 9),
-  (9, 8, 7, 9),
-  (9, 9, 8, 9),
-  (10, 3, 2, 10),
-  (10, 4, 3, 10),
-  (10, 5, 4, 10),
-  (10, 6, 5, 10),
-  (10, 7, 6, 10),
-  (10, 8, 7, 10),
-  (10, 9, 8, 10),
-  (10, 10, 9, 10)]
+  (3, 3, 3, 3),
+  (4, 3, 4, 4),
+  (4, 4, 4, 4),
+  (5, 3, 5, 5),
+  (5, 4, 5, 5),
+  (5, 5, 5, 5),
+  (6, 3, 6, 6),
+  (6, 4, 6, 6),
+  (6, 5, 6, 6),
+  (6, 6, 6, 6),
+  (7, 3, 7, 7),
+  (7, 4, 7, 7),
+  (7, 5, 7, 7),
+  (7, 6, 7, 7),
+  (7, 7, 7, 7),
+  (8, 3, 8, 8),
+  (8, 4, 8, 8),
+  (8, 5, 8, 8),
+  (8, 6, 8, 8),
+  (8, 7, 8, 8),
+  (8, 8, 8, 8),
+  (9, 3, 9, 9),
+  (9, 4, 9, 9),
+  (9, 5, 9, 9),
+  (9, 6, 9, 9),
+  (9, 7, 9, 9),
+  (9, 8, 9, 9),
+  (9, 9, 9, 9),
+  (10, 3, 10, 10),
+  (10, 4, 10, 10),
+  (10, 5, 10, 10),
+  (10, 6, 10, 10),
+  (10, 7, 10, 10),
+  (10, 8, 10, 10),
+  (10, 9, 10, 10),
+  (10, 10, 10, 10)]
 
 def guardTol : Rat := ((6338253001141147 : Rat) / 633825300114114700748351602688)
 def tolPartialDefault : Rat := ((178405961588245 : Rat) / 178405961588244985132285746181186892047843328)
